@@ -3,7 +3,8 @@
 Model: coq/Registry/Model.v   Theorems: coq/Props/C15.v
 Correspondence: histories of register / unregister / clear / get / all calls on one to three ComponentRegistry
 objects, each on its own private django.template.Library (with pre-existing tags, with / without
-mark_protected_tags), for the default, the shorthand and a user-defined tag formatter.  After every call the
+mark_protected_tags at creation, and with mark_protected_tags calls IN the history: the protected list is state), for the
+default, the shorthand and a user-defined tag formatter.  After every call the
 result (value or exception class), all() of EVERY registry and the tag table of EVERY Library are observed and compared
  (a) with an independent plain-dict reference + the tag/protection predicates of the property (direct oracle),
  (b) with the Coq model evaluated by vm_compute.
